@@ -377,7 +377,9 @@ def _ensemble_append(c, adv, erel, prog=None):
     for attr, walker in (("self.sample", "self.walker_positions"), ("self.sample_probs", "self.walker_probs")):
         st = stores.get(attr)
         lay = None
-        if st is not None and isinstance(st.value, ast.Call) and U(st.value.func) == "concatenate" and st.value.args:
+        if st is not None and isinstance(st.value, ast.Call) and st.value.args and not st.value.keywords and (
+                U(st.value.func) == "concatenate" or (U(st.value.func) in ("vstack", "row_stack") and attr == "self.sample")
+                or (U(st.value.func) == "hstack" and attr == "self.sample_probs")):
             lay = L.layout_of(st.value.args[0], st)
         want = (("cond", f"{attr} is None", (), (("item", attr),)), ("each", ("iter", f"range({npar})"), f"{walker}.copy()"))
 
